@@ -22,7 +22,7 @@ from .common import (Sim, SimEndpoint, Result, new_shaper, call, StepCapExceeded
 ID = "C18"
 LEVEL = "fault_enumeration"
 HAS_CLOCK = True
-COUNTS = {"quick": 2000, "thorough": 300000}
+COUNTS = {"quick": 3000, "thorough": 300000}
 WALL = {"quick": 600, "thorough": 6 * 3600}
 SHRINK_WALL = {"quick": 120, "thorough": 900}
 SELFTEST_N = {"quick": 32, "thorough": 256}
